@@ -216,3 +216,65 @@ Proof.
   - rewrite <- La. exact S2.
   - cbn [norm_before]. rewrite <- Rs. exact S1.
 Qed.
+
+(* ====================================================================================== *)
+(* audit C03 (medium-low): the refusing shapes no C03 theorem matched - set_data with NEW DATA (the id recomputed
+   through the callback), with an explicit id next to new data, with_clones=True; remove(keep_children=True) with
+   with_clones=True. *)
+From NT Require Import Refusal.
+
+Lemma op_set_data_core w ti n d e wc t s did' : get_tree w ti = Some t -> get_node n (forest_of t) = Some s ->
+  (d <> None \/ e <> None) -> sd_did' t (sd_new_data s d) e = Some did' ->
+  op_set_data w ti n d e wc = set_data_core w ti t n s (sd_new_data s d) (sd_new_did s did') wc.
+Proof.
+  intros Gt Gn Hde Hd. rewrite op_set_data_eq, Gt, Gn, Hd. destruct d, e; try reflexivity. destruct Hde; congruence.
+Qed.
+
+(* whatever mix of new data / explicit id: the id [x] the node is about to get is carried by another child of its parent *)
+Theorem set_data_refused_any w ti n d e wcl t s did' x q0 i l y :
+  WFw w -> get_tree w ti = Some t -> get_node n (forest_of t) = Some s -> (d <> None \/ e <> None) ->
+  sd_did' t (sd_new_data s d) e = Some did' -> sd_new_did s did' = Some x ->
+  node_loc n (forest_of t) = Some (q0, i, l) -> In y l -> rid y <> n -> rdid y = x ->
+  (Nat.ltb 1 (length (idx_get (rdid s) (idx t))) = false \/ wcl = Some false) ->
+  fst (op_set_data w ti n d e wcl) = Err EUnique.
+Proof.
+  intros H Gt Gn Hde Hd Hx E Hy Ny Ey Hc. rewrite (op_set_data_core w ti n d e wcl t s did' Gt Gn Hde Hd), Hx.
+  exact (set_data_refused_single w ti n t s q0 i l y (sd_new_data s d) x wcl H Gt Gn E Hy Ny Ey Hc).
+Qed.
+
+(* with_clones=True: some member of the clone group has a sibling outside the group that carries the new id *)
+Theorem set_data_refused_any_group w ti n d e t s did' x m q0 i l y :
+  WFw w -> get_tree w ti = Some t -> get_node n (forest_of t) = Some s -> (d <> None \/ e <> None) ->
+  sd_did' t (sd_new_data s d) e = Some did' -> sd_new_did s did' = Some x ->
+  Nat.ltb 1 (length (idx_get (rdid s) (idx t))) = true ->
+  In m (idx_get (rdid s) (idx t)) -> node_loc m (forest_of t) = Some (q0, i, l) ->
+  In y l -> rdid y = x -> ~ In (rid y) (idx_get (rdid s) (idx t)) ->
+  fst (op_set_data w ti n d e (Some true)) = Err EUnique.
+Proof.
+  intros H Gt Gn Hde Hd Hx Hc Hm E Hy Ey Ny. rewrite (op_set_data_core w ti n d e (Some true) t s did' Gt Gn Hde Hd), Hx.
+  exact (set_data_refused_group w ti n t s m q0 i l y (sd_new_data s d) x H Gt Gn Hc Hm E Hy Ey Ny).
+Qed.
+
+(* remove(keep_children=True), with or without clones: refused exactly when, for some victim, the child list its
+   parent would hold after ALL victims are replaced by their children ([contract_t]) repeats a data_id; the world is
+   untouched.  Without keep_children a remove is never refused. *)
+Theorem remove_refused_iff w ti n (keep wc : bool) t d : get_tree w ti = Some t -> did_of n (forest_of t) = Some d ->
+  let victims := if wc then filter (fun c => negb (Nat.eqb c n)) (idx_get d (idx t)) ++ [n] else [n] in
+  (fst (op_remove w ti n keep wc) = Err EUnique <->
+   keep = true /\ exists v q0 i l, In v victims /\ node_loc v (forest_of t) = Some (q0, i, l) /\
+                   ~ NoDup (map rdid (flat_map (contract_t victims) l))) /\
+  (fst (op_remove w ti n keep wc) = Err EUnique -> snd (op_remove w ti n keep wc) = w) /\
+  (fst (op_remove w ti n keep wc) = Err EUnique \/ fst (op_remove w ti n keep wc) = Ok []).
+Proof.
+  intros Gt Gd victims. unfold op_remove. rewrite Gt, Gd. fold victims.
+  destruct (keep && existsb (keep_collides_all t victims) victims) eqn:E; cbn [fst snd].
+  - refine (conj _ (conj (fun _ => eq_refl) (or_introl eq_refl))). split; [intros _|reflexivity].
+    apply andb_true_iff in E. destruct E as [-> E]. split; [reflexivity|]. apply existsb_exists in E. destruct E as (v & Hv & K).
+    unfold keep_collides_all in K. destruct (node_loc v (forest_of t)) as [[[q0 i] l]|] eqn:L; [|discriminate].
+    exists v, q0, i, l. refine (conj Hv (conj L _)). intros ND. apply has_dup_did_spec in ND. congruence.
+  - refine (conj _ (conj (fun X => _) (or_intror eq_refl))); [|discriminate X]. split; [discriminate|].
+    intros (-> & v & q0 & i & l & Hv & L & ND). exfalso. cbn [andb] in E.
+    assert (X : existsb (keep_collides_all t victims) victims = true).
+    { apply existsb_exists. exists v. split; [exact Hv|]. unfold keep_collides_all. rewrite L. now apply has_dup_did_true. }
+    congruence.
+Qed.
